@@ -32,6 +32,16 @@ pub struct DetCase {
 }
 
 const TITLES: &[&str] = &["Alpha", "Beta", "Gamma topic", "Delta", "Alpha", "Notes on beta", "Gamma", "Index"];
+/// titles with accented, upper-case and astral characters (title index 200 and up; the first
+/// eight indices keep their meaning so that saved cases keep theirs)
+const WIDE_TITLES: &[&str] = &["x\u{c9}e\u{1d4b3}\u{c9}\u{1d4b3}\u{c9}\u{c9}\u{e9}e", "t4\u{c9}x \u{e9}\u{e9}t\u{1d4b3}\u{1d4b3}", "\u{e9} x\u{e9}\u{1d4b3}\u{e9}t 4", "ttx4\u{1d4b3}t \u{1d4b3}\u{1d4b3}e4", "\u{c9}t\u{e9} \u{1d4b3} note", "\u{e9}t\u{e9}"];
+fn title_text(i: usize) -> &'static str {
+    if i >= 200 {
+        WIDE_TITLES[(i - 200) % WIDE_TITLES.len()]
+    } else {
+        TITLES[i % TITLES.len()]
+    }
+}
 const DIRS: &[&str] = &["", "", "", "d/", "d/e/", "g/"];
 
 pub fn build_lib(case: &DetCase) -> Lib {
@@ -40,7 +50,7 @@ pub fn build_lib(case: &DetCase) -> Lib {
     let mut lib = Lib::new();
     for (i, spec) in case.notes.iter().enumerate() {
         let dir = crate::pathalg::dir_of(&key_of(i));
-        let mut t = format!("# {}\n\n", TITLES[(spec.title as usize) % TITLES.len()]);
+        let mut t = format!("# {}\n\n", title_text(spec.title as usize));
         t.push_str(&format!("text of note {} ", i));
         // inline links are generated in root notes only (they are keyed by their raw url)
         if dir.is_empty() {
@@ -51,7 +61,7 @@ pub fn build_lib(case: &DetCase) -> Lib {
         }
         t.push_str("\n\n");
         for s in 0..(spec.subs % 4) {
-            t.push_str(&format!("## {} part {}\n\nbody {}\n\n", TITLES[((spec.title + s) as usize) % TITLES.len()], s, s));
+            t.push_str(&format!("## {} part {}\n\nbody {}\n\n", title_text(spec.title as usize + s as usize), s, s));
         }
         for r in &spec.block_refs {
             let target = key_of((*r as usize) % n);
@@ -85,7 +95,7 @@ pub fn dump(db: &Database, keys: &[String]) -> BTreeMap<String, Value> {
         .collect();
     paths.sort();
     out.insert("paths(sorted)".into(), json!(paths));
-    for q in ["", "alpha", "gam top", "part 1", "zzz"] {
+    for q in ["", "alpha", "gam top", "part 1", "zzz", "\u{e9}\u{e9}t", "\u{e9}t\u{e9} 1"] {
         let res: Vec<Value> = db.global_search(q).iter().map(|p| json!([p.search_text, p.key.to_string(), p.line, p.node_rank])).collect();
         out.insert(format!("search:{:?}", q), json!(res));
     }
@@ -158,7 +168,7 @@ impl Property for C16 {
         300
     }
     fn strategy(&self, _features: &Features, _tier: Tier) -> BoxedStrategy<DetCase> {
-        let note = (0u8..8, vec(0u16..400, 0..3), vec(0u16..400, 0..3), 0u8..4, 0u8..6)
+        let note = (prop_oneof![3 => 0u8..8, 1 => 200u8..206], vec(0u16..400, 0..3), vec(0u16..400, 0..3), 0u8..4, 0u8..6)
             .prop_map(|(title, block_refs, inline_links, subs, dir)| NoteSpec { title, block_refs, inline_links, subs, dir });
         (vec(note, 20..160), vec(0u16..400, 0..40), prop_oneof![Just(String::new()), Just(".md".to_string())])
             .prop_map(|(notes, perm, ext)| DetCase { notes, perm, ext })
